@@ -282,6 +282,12 @@ def check_registered(eng, run):
         if isinstance(c, ast.Call) and isinstance(c.func, ast.Attribute) and c.func.attr == "cancel":
             d = dotted(c.func.value) or ""
             parts = d.split(".")
+            if len(parts) >= 2 and parts[0] != ac.self_name:
+                # `pending = self.__connector; ... pending.scope.cancel()`: look through the local
+                from sa.analyses.buffers import through_local
+                v = through_local(ac, ast.Name(id=parts[0], ctx=ast.Load()))
+                if isinstance(v, ast.Attribute) and dotted(v.value) == ac.self_name:
+                    parts = [ac.self_name, v.attr] + parts[1:]
             if len(parts) >= 3 and parts[0] == ac.self_name:
                 attrs.add(".".join(parts[1:2]))
     if len(attrs) != 1:
@@ -343,13 +349,31 @@ def check_all_attempted(eng, run, race, tc):
 
     db = eng.db
     mod = race.module
-    # (a) helper functions applied to the address list in the race
+    # (a) helper functions applied to the address list in the race: walk back from the list the race loop iterates over to the
+    # parameter holding the resolved addresses, through single-assignment locals
+    from sa.analyses.buffers import assignments
+    spawn_loops = [x for x in own_nodes(race.node) if isinstance(x, ast.For) and isinstance(x.iter, ast.Name)
+                   and any(isinstance(c, ast.Call) and isinstance(c.func, ast.Attribute) and c.func.attr == "start_soon" and any(is_name(a, tc.name) for a in c.args) for c in ast.walk(x))]
+    params = {a.arg for a in race.params()}
     helpers = []
-    for n in own_nodes(race.node):
-        if isinstance(n, ast.Assign) and any(is_name(t, "remote_addrinfo") for t in n.targets):
-            for c in ast.walk(n.value):
-                if isinstance(c, ast.Call) and isinstance(c.func, ast.Name) and c.func.id in mod.functions:
+    asg = assignments(race)
+    todo, seen_names, reaches_param = [lp.iter.id for lp in spawn_loops], set(), False
+    while todo:
+        nm = todo.pop()
+        if nm in seen_names:
+            continue
+        seen_names.add(nm)
+        if nm in params:
+            reaches_param = True
+        for v in asg.get(nm, []):
+            for c in ast.walk(v):
+                if isinstance(c, ast.Call) and isinstance(c.func, ast.Name) and c.func.id in mod.functions and mod.functions[c.func.id] not in helpers:
                     helpers.append(mod.functions[c.func.id])
+                if isinstance(c, ast.Name) and c.id != nm:
+                    todo.append(c.id)
+    if spawn_loops and not reaches_param:
+        run.finding("C19.all", race, spawn_loops[0], "the list the race loop iterates over is not derived from the resolved address list")
+    run.ob("C19.all", f"{race.short}:race-list-derived-from-resolved-addresses", bool(spawn_loops) and reaches_param, via=sorted(seen_names))
     for h in helpers:
         probs = []
         for c in own_nodes(h.node):
@@ -389,7 +413,7 @@ def check_all_attempted(eng, run, race, tc):
         run.ob("C19.all", f"{h.short}:element-preserving", not probs)
     run.floor("C19.all address-list transformations", len(helpers), 2)
     # (b) the race loop starts one attempt per address
-    loops = [x for x in own_nodes(race.node) if isinstance(x, ast.For) and is_name(x.iter, "remote_addrinfo")]
+    loops = spawn_loops
     ok = len(loops) == 1
     if ok:
         lp = loops[0]
